@@ -96,7 +96,12 @@ pub struct TapeRng {
     prefix_fill: u8,
     ncalls: usize,
     pub draws: Vec<Draw>,
+    /// fault injection: the n-th call (1-based) fails like a failing OS RNG:
+    /// `try_fill_bytes` returns an error, `fill_bytes` panics
+    pub fail_at_call: Option<usize>,
 }
+
+pub const RNG_FAILURE_MSG: &str = "TapeRng: injected RNG failure";
 
 impl TapeRng {
     pub fn new(seed: [u8; 32]) -> Self {
@@ -111,6 +116,7 @@ impl TapeRng {
             prefix_fill: s.prefix_fill,
             ncalls: 0,
             draws: Vec::new(),
+            fail_at_call: None,
         }
     }
     /// number of bytes handed out so far (constant-prefix calls included)
@@ -163,6 +169,10 @@ impl RngCore for TapeRng {
         u64::from_le_bytes(b)
     }
     fn fill_bytes(&mut self, dest: &mut [u8]) {
+        if self.fail_at_call == Some(self.ncalls + 1) {
+            self.ncalls += 1;
+            panic!("{}", RNG_FAILURE_MSG);
+        }
         if (self.ncalls as u64) < self.prefix_calls as u64 {
             for d in dest.iter_mut() {
                 *d = self.prefix_fill;
@@ -184,6 +194,10 @@ impl RngCore for TapeRng {
         });
     }
     fn try_fill_bytes(&mut self, dest: &mut [u8]) -> Result<(), rand::Error> {
+        if self.fail_at_call == Some(self.ncalls + 1) {
+            self.ncalls += 1;
+            return Err(rand::Error::from(core::num::NonZeroU32::new(rand::Error::CUSTOM_START + 7).unwrap()));
+        }
         self.fill_bytes(dest);
         Ok(())
     }
